@@ -1052,6 +1052,17 @@ func (g *sg) mesh(maxVerts int, allowEmpty bool) meshInfo {
 	if g.r.Intn(4) == 0 {
 		o.MaxVerts = 4
 	}
+	return g.meshFrom(o)
+}
+
+// exactMesh: the full attribute mix of mesh() on exactly n vertices (block-multiples phase).
+func (g *sg) exactMesh(n int) meshInfo {
+	return g.meshFrom(gen.MeshOpts{MinVerts: n, MaxVerts: n, NoPositionOK: true, F32: true,
+		V3Names: []string{modeling.NormalAttribute, modeling.ColorAttribute, "userV3"}, V2Names: []string{modeling.TexCoordAttribute, "userV2"},
+		V1Names: []string{}, V4Names: []string{}})
+}
+
+func (g *sg) meshFrom(o gen.MeshOpts) meshInfo {
 	m, d := gen.Mesh(g.r, o)
 	n := d.Verts
 	if n > 0 {
@@ -1248,6 +1259,12 @@ func (g *sg) finish(sc gltf.PolyformScene, pool []meshInfo) *sceneInfo {
 
 // randomScene: 0–8 models over small pools.
 func randomScene(r *rand.Rand, big []int, thorough bool) *sceneInfo {
+	return randomSceneX(r, big, thorough, 0)
+}
+
+// randomSceneX: a negative entry −n of big asks for exactMesh(n) instead of bigMesh(n); instCount > 0 gives
+// the first model exactly that many GPU instances.
+func randomSceneX(r *rand.Rand, big []int, thorough bool, instCount int) *sceneInfo {
 	g := newSG(r)
 	nMesh := 1 + r.Intn(4)
 	var pool []meshInfo
@@ -1267,7 +1284,11 @@ func randomScene(r *rand.Rand, big []int, thorough bool) *sceneInfo {
 		}
 	}
 	for _, n := range big {
-		pool = append(pool, g.bigMesh(n))
+		if n < 0 {
+			pool = append(pool, g.exactMesh(-n))
+		} else {
+			pool = append(pool, g.bigMesh(n))
+		}
 	}
 	// value-equal copy of a mesh under a new pointer
 	if r.Intn(4) == 0 {
@@ -1348,6 +1369,13 @@ func randomScene(r *rand.Rand, big []int, thorough bool) *sceneInfo {
 		mo := gltf.PolyformModel{Mesh: mi.mesh, Material: mats[r.Intn(len(mats))]}
 		g.decorate(&mo)
 		sc.Models = append(sc.Models, mo)
+	}
+	if instCount > 0 && len(sc.Models) > 0 {
+		insts := make([]trs.TRS, instCount)
+		for j := range insts {
+			insts[j] = trs.New(g.v3(), g.quat(), vector3.New(0.5+g.r.Float64(), 1, 0.25+g.r.Float64()))
+		}
+		sc.Models[0].GpuInstances = insts
 	}
 	for k := r.Intn(8) - 4; k > 0; k-- {
 		sc.Lights = append(sc.Lights, g.light())
